@@ -358,7 +358,7 @@ def apply(s, a):
             from cherab.core.model import Bremsstrahlung
             P.models.add(Bremsstrahlung())
     elif op == "observe":
-        observe(s, kinds=[a["k"]])
+        observe(s, kinds=None if a["k"] == "all" else [a["k"]])
     else:
         raise KeyError(op)
 
